@@ -15,7 +15,7 @@ from ..common import MachineryError, REPO, HARNESS, NCPU
 from .. import build, tlc, run
 from . import _idbq as Q
 
-CFG = {"quick": os.environ.get("VERIF_C12_CFG", "IdbFile_quick"), "thorough": "IdbFile_thorough"}
+CFG = {"quick": "IdbFile_quick", "thorough": "IdbFile_thorough"}
 MAXPOS = 3          # vectors of the generated databases have at most 2 entries
 BASE_DEF = {"first": 1, "next": 4, "lib": [98], "mod": []}
 
